@@ -205,7 +205,9 @@ class PipeHsmsSettings(secsgem.hsms.HsmsSettings):
         self.pipe = None
 
     def create_connection(self):
-        self.pipe = PipeConnection(self, label=f"{self.address}:{self.port}")
+        # idempotent: a harness may create the connection first (to wire a Link) and the protocol picks up the same object
+        if self.pipe is None:
+            self.pipe = PipeConnection(self, label=f"{self.address}:{self.port}")
         return self.pipe
 
 
